@@ -60,7 +60,7 @@ G_PAIR = f"{_F}.__getitem__/ensures.two_accesses_in_a_row_equal_single_accesses"
 H_HIST = f"{_F}/history.public_access_sequence_len200_every_step_equals_oracle"
 
 
-def info(prop):
+def _info_bounded(prop):
     return {
         "level": "other",
         "functions": [
@@ -986,7 +986,7 @@ def task_guards(tier, seed):
         shutil.rmtree(tmp, ignore_errors=True)
 
 
-def tasks(prop, tier, seed):
+def _tasks_bounded(prop, tier, seed):
     L = 4 if tier == "quick" else 5
     t = []
     lim = 400.0 if tier == "quick" else 1800.0
@@ -1012,7 +1012,7 @@ def tasks(prop, tier, seed):
 # replay on the real, unwrapped code
 
 
-def replay(prop, cex):
+def _replay_bounded(prop, cex):
     tmp = tempfile.mkdtemp(prefix="c12_replay_")
     try:
         if cex.get("shipped"):
@@ -1045,3 +1045,42 @@ def replay(prop, cex):
             s.close()
     finally:
         shutil.rmtree(tmp, ignore_errors=True)
+
+
+# ---------------------------------------------------------------------------
+# deductive part (contracts/d12_offsets_vc.py) wired in
+
+
+def info(prop):
+    from . import d12_offsets_vc as D
+    d = _info_bounded(prop)
+    h = D.deductive_info()
+    d["functions"] = h["functions"][:2] + d.get("functions", [])
+    d["stubs"] = h["stubs"] + d.get("stubs", [])
+    d["assumptions"] = h["assumptions"] + d.get("assumptions", [])
+    d["explanation"] = h["explanation"] + d.get("explanation", "")
+    d["trusted_base"] = ["z3 5.1", "vf/pyvc.py + vf/seq.py"] + d.get("trusted_base", [])
+    return d
+
+
+def tasks(prop, tier, seed):
+    from . import d12_offsets_vc as D
+    return list(D.deductive_tasks(prop, tier, seed)) + list(_tasks_bounded(prop, tier, seed))
+
+
+def replay(prop, cex):
+    if cex.get("kind") == "vc":
+        # a failed proof obligation of the offset arithmetic: look for a failing access in the bounded scope of the real code
+        for name, fn, args, _lim in _tasks_bounded(prop, "quick", 0)[:8]:
+            try:
+                obs = fn(*args)
+            except Exception:
+                continue
+            for o in obs:
+                if o.get("status") == "refuted" and o.get("kind") != "guard" and o.get("cex"):
+                    r = _replay_bounded(prop, o["cex"])
+                    if r and r.get("reproduced"):
+                        r["note"] = f"failed obligation {cex.get('obligation') or cex.get('signature')} manifests on the real SystemGro"
+                        return r
+        return {"reproduced": False, "inputs": cex, "note": "no failing access found in the bounded scope"}
+    return _replay_bounded(prop, cex)
